@@ -245,6 +245,146 @@ def describe (g : Star) (e : Nat × Nat) : String × String × List String × Di
   | some nd => (g.workers.getD e.1 "?", nd.name, nd.vms, nd.params)
   | none => ("?", "?", [], [])
 
+/-! ## C15: `flag_children`, `flag_intersection` and the flagging passes of `intertest_setup.update` -/
+
+/-- a node of a parsed graph as far as the flagging cares -/
+structure UNode where
+  name : String                 -- `params["name"]`
+  setless : String              -- `setless_form` (name without the main restriction)
+  variants : List String        -- `name.split(".")` (what the prefix tree indexes)
+  vms : List String             -- `params["vms"].split()`
+  worker : String               -- id of the worker whose net the node was parsed for
+  compForms : List String       -- `component_form` of the node's vm objects
+  objectRoot : List String := []  -- `params["object_root"]` split at `-` and `.` ([] when absent)
+  sharedRoot : Bool := false
+  cloned : Bool := false        -- `len(cloned_nodes) > 0`
+  sets : List (String × String) := []   -- states the node produces: (vm, state)
+  children : List Nat := []     -- `cleanup_nodes`
+deriving Repr
+
+structure UGraph where
+  nodes : List UNode := []
+deriving Repr
+
+def UGraph.node (g : UGraph) (n : Nat) : UNode :=
+  g.nodes.getD n { name := "", setless := "", variants := [], vms := [], worker := "", compForms := [] }
+
+/-- the policies `update` installs (`dflt`: the node keeps `default_run_decision` / `default_clean_decision`) -/
+inductive Pol
+  | dflt
+  | never                 -- `lambda self, slot: False`
+  | notFinishedOrRerun    -- `lambda self, slot: not self.is_finished(slot) or self.should_rerun(slot)`
+  | cloneFree             -- `lambda self, slot: len(self.cloned_nodes) == 0`
+deriving Repr, DecidableEq, BEq
+
+inductive FlagType | run | clean
+deriving Repr, DecidableEq, BEq
+
+structure Flags where
+  run : Nat → Pol := fun _ => .dflt
+  clean : Nat → Pol := fun _ => .dflt
+
+def Flags.set (fl : Flags) (ty : FlagType) (p : Pol) (n : Nat) : Flags :=
+  match ty with
+  | .run => { fl with run := upd fl.run n p }
+  | .clean => { fl with clean := upd fl.clean n p }
+
+def Flags.get (fl : Flags) (ty : FlagType) (n : Nat) : Pol :=
+  match ty with | .run => fl.run n | .clean => fl.clean n
+
+/-- contiguous sub-list (what `PrefixTree.get` answers for parser-shaped names, C16) -/
+def isInfix (q : List String) : List String → Bool
+  | [] => q.isEmpty
+  | x :: xs => q.isPrefixOf (x :: xs) || isInfix q xs
+
+/-- the root selection of `flag_children`.  `workerSel = none`: no worker filter; `some (cf, wid)`: the name must match
+`(?:^|\.)<cf>.*<wid>(?:$|\.)`, which for parser-shaped names says: `cf` is the component form of one of the node's vms
+and the node belongs to worker `wid`.  `nodeName` is the name split at the dots (`[]` for the empty name). -/
+def selectRoots (g : UGraph) (nodeName : List String) (objectName : String) (workerSel : Option (String × String)) :
+    List Nat :=
+  (List.range g.nodes.length).filter fun i =>
+    let nd := g.node i
+    (if nodeName.isEmpty && objectName == "" then nd.sharedRoot
+     else if nodeName.isEmpty then nd.objectRoot.contains objectName
+     else isInfix nodeName nd.variants && (objectName == "" || nd.vms.contains objectName)) &&
+    (match workerSel with
+     | none => true
+     | some (cf, wid) => nd.compForms.contains cf && nd.worker == wid)
+
+/-- everything reachable from `cur` in at most `k` steps along the cleanup edges (including `cur`) -/
+def reachWithin (g : UGraph) : Nat → List Nat → List Nat
+  | 0, cur => cur
+  | k + 1, cur => cur ++ reachWithin g k (cur.flatMap (fun n => (g.node n).children))
+
+/-- `flag_children`: exactly one root or `AssertionError`; then the root (unless `skip_parents`) and, unless
+`skip_children`, everything below it get the policy.  (The Python worklist visits the same nodes in another order and
+possibly several times; the assignment is idempotent.) -/
+def flagChildren (g : UGraph) (fl : Flags) (nodeName : List String) (objectName : String)
+    (workerSel : Option (String × String))
+    (ty : FlagType) (p : Pol) (skipParents skipChildren : Bool) : Except Err Flags :=
+  match selectRoots g nodeName objectName workerSel with
+  | [r] =>
+    let start := if skipParents then (g.node r).children else [r]
+    let all := if skipChildren then start else reachWithin g g.nodes.length start
+    .ok (all.foldl (fun f n => f.set ty p n) fl)
+  | _ => .error .assertionError
+
+/-- `re.search(setless + "$", name)` for names without regex specials other than `.` -/
+def endsWithStr (name suffix : String) : Bool := suffix.toList.isSuffixOf name.toList
+
+/-- `flag_intersection`: every node of the graph that maps to exactly one node of the other graph (by set-less name as
+a suffix of the other's name) gets the policy; several matches are a `ValueError` -/
+def flagIntersection (g : UGraph) (fl : Flags) (otherNames : List String) (ty : FlagType) (p : Pol)
+    (skipObjectRoots skipSharedRoot : Bool) : Except Err Flags :=
+  (List.range g.nodes.length).foldlM (fun f i =>
+    let nd := g.node i
+    match otherNames.filter (fun nm => endsWithStr nm nd.setless) with
+    | [] => .ok f
+    | [_] => if (nd.sharedRoot && skipSharedRoot) || (!nd.objectRoot.isEmpty && skipObjectRoots) then .ok f
+             else .ok (f.set ty p i)
+    | _ :: _ :: _ => .error .valueError) fl
+
+/-- one (vm, worker) iteration of `update` -/
+structure UpdateIn where
+  vm : String
+  worker : String
+  compForms : List String        -- component forms of the vm's objects (one per selected variant)
+  fromState : String := "install"
+  toState : String := "customize"
+  fromVars : List String := ["install"]   -- `from_state.split(".")`
+  toVars : List String := ["customize"]   -- `to_state.split(".")`
+  clean : Option UGraph          -- the remove-set graph (`none`: `EmptyCartesianProduct`, worker skipped)
+  runNames : List String         -- names of the nodes of the graph parsed for `all..<to_state>` (install: the install nodes)
+  skipNames : List String := []  -- names of the nodes of the graph parsed for `all..<from_state>`
+deriving Repr
+
+def mapAssertion (r : Except Err Flags) : Except Err Flags :=
+  match r with | .error .assertionError => .error .valueError | x => x
+
+/-- the flagging passes of `update` for one vm and one worker, in program order -/
+def updateFlags (u : UpdateIn) : Except Err (Option Flags) :=
+  match u.clean with
+  | none => .ok none
+  | some g => do
+    let names := g.nodes.map (·.name)
+    let f ← flagIntersection g {} names .run .never false false
+    let f ← flagIntersection g f names .clean .never false false
+    let flagState := if u.toState == "install" then [] else u.toVars
+    let f ← u.compForms.foldlM (fun f cf =>
+      mapAssertion (flagChildren g f flagState u.vm (some (cf, u.worker)) .clean .cloneFree true false)) f
+    let f ← flagIntersection g f u.runNames .run .notFinishedOrRerun false true
+    let f ← if u.fromState != "install" then do
+        let f ← flagIntersection g f u.skipNames .run .never false false
+        u.compForms.foldlM (fun f cf =>
+          mapAssertion (flagChildren g f u.fromVars u.vm (some (cf, u.worker)) .run .notFinishedOrRerun false true)) f
+      else pure f
+    pure (some f)
+
+/-- what the traversal then does with a node: it is (re)run iff its run policy is `notFinishedOrRerun` -/
+def willRun (fl : Flags) (n : Nat) : Bool := fl.run n == .notFinishedOrRerun
+/-- … and its states are removed iff its clean policy is `cloneFree` and it is no clone source -/
+def willClean (g : UGraph) (fl : Flags) (n : Nat) : Bool := fl.clean n == .cloneFree && !(g.node n).cloned
+
 /-! ## `Manu.run`: the setup chain loop -/
 
 /-- what a step function does: returns `None`, returns an integer, or raises -/
